@@ -25,8 +25,11 @@ Inductive shape :=
 | STSL (n : nat) (elem : shape)    (* fixed-size list *)
 | STSD (elem : shape).             (* dictionary keyed by int64 *)
 
-Record trk := mkTrk { lmt : Z; ncnt : Z }.
-Definition trk0 : trk := mkTrk MIN_DT 0.
+(* lmt: last_modified_time; ncnt: number of observers.notify calls so far; nlast: the time of the last one,
+   which is also the last time this node called parent.notify_child_modified (record_modified returning true,
+   or invalidate): a dictionary's per-slot modified bit of the current cycle is exactly [nlast = t] *)
+Record trk := mkTrk { lmt : Z; ncnt : Z; nlast : Z }.
+Definition trk0 : trk := mkTrk MIN_DT 0 MIN_DT.
 
 Inductive tsd :=
 | Leaf (k : trk) (v : Z)
@@ -63,10 +66,10 @@ Definition ncnt_of (s : tsd) : Z := ncnt (tracking s).
    if (modified_time <= last_modified_time) return false;
    last_modified_time = modified_time; observers.notify(modified_time); return true;            *)
 Definition rec_mod (t : Z) (k : trk) : trk * bool :=
-  if t <=? lmt k then (k, false) else (mkTrk t (ncnt k + 1), true).
+  if t <=? lmt k then (k, false) else (mkTrk t (ncnt k + 1) t, true).
 
 (* observers.notify alone (used by invalidate) *)
-Definition notify_only (k : trk) : trk := mkTrk (lmt k) (ncnt k + 1).
+Definition notify_only (t : Z) (k : trk) : trk := mkTrk (lmt k) (ncnt k + 1) t.
 
 (* record on a node; the boolean says whether state.parent.notify_child_modified is to be called *)
 Definition mark (t : Z) (s : tsd) : tsd * bool :=
@@ -208,7 +211,7 @@ Definition inv_kids (inv : tsd -> tsd * bool * bool) (t fk : Z) :=
 Fixpoint inv_tree (t : Z) (s : tsd) : tsd * bool * bool :=
   if lmt_of s =? MIN_DT then (s, false, false) else
   match s with
-  | Leaf k v => (Leaf (mkTrk MIN_DT (ncnt k + 1)) v, true, true)
+  | Leaf k v => (Leaf (mkTrk MIN_DT (ncnt k + 1) t) v, true, true)
   | Dict k e kids =>
     let fix go (k : trk) (l : list (Z * tsd)) : trk * list (Z * tsd) :=
       match l with
@@ -220,10 +223,10 @@ Fixpoint inv_tree (t : Z) (s : tsd) : tsd * bool * bool :=
         (k2, (key, c') :: r')
       end in
     let '(k', kids') := go k kids in
-    (Dict (mkTrk MIN_DT (ncnt k' + 1)) e kids', true, true)
+    (Dict (mkTrk MIN_DT (ncnt k' + 1) t) e kids', true, true)
   | Fix k fk bits kids =>
     let '(k', bits', kids') := inv_kids (inv_tree t) t fk 0%nat k bits kids in
-    (Fix (mkTrk MIN_DT (ncnt k' + 1)) fk bits' kids', true, true)
+    (Fix (mkTrk MIN_DT (ncnt k' + 1) t) fk bits' kids', true, true)
   end.
 
 Definition op_inv (t : Z) (s : tsd) : res :=
@@ -293,10 +296,25 @@ Inductive op :=
 | OInv (p : path)
 | OWhole (p : path) (vt : vtree)
 | ODictAt (p : path) (key : Z)
-| OErase (p : path) (key : Z).
+| OErase (p : path) (key : Z)
+| OSetD (p : path) (v : Z).      (* leaf write through the element's own view: dictionaries are only looked up *)
 
 Definition op_code (o : op) : Z :=
-  match o with OSet _ _ => 1 | OInv _ => 2 | OWhole _ _ => 3 | ODictAt _ _ => 4 | OErase _ _ => 5 end.
+  match o with OSet _ _ => 1 | OInv _ => 2 | OWhole _ _ => 3 | ODictAt _ _ => 4 | OErase _ _ => 5 | OSetD _ _ => 6 end.
+
+(* TSDDataView::contains on every dictionary level of the path *)
+Fixpoint keys_exist (p : path) (s : tsd) : bool :=
+  match p with
+  | [] => true
+  | i :: p' =>
+    match s with
+    | Leaf _ _ => true
+    | Fix _ _ _ kids => match zidx i with
+                        | Some n => match nth_error kids n with Some c => keys_exist p' c | None => true end
+                        | None => true end
+    | Dict _ _ kids => match dict_find i kids with Some c => keys_exist p' c | None => false end
+    end
+  end.
 
 Definition step (t : Z) (o : op) (s : tsd) : res :=
   match o with
@@ -305,6 +323,7 @@ Definition step (t : Z) (o : op) (s : tsd) : res :=
   | OWhole p vt => at_path (op_whole t vt) t p s
   | ODictAt p key => at_path (op_dict_at t key) t p s
   | OErase p key => at_path (op_erase t key) t p s
+  | OSetD p v => if keys_exist p s then at_path (op_set t v) t p s else mkRes s false false 4
   end.
 
 (* a write history: (time, operation) in execution order *)
@@ -418,6 +437,7 @@ Definition parse_op (sh : shape) (l : line) : option (Z * op) :=
       end
     else if code =? 4 then Some (t, ODictAt p (hdz a))
     else if code =? 5 then Some (t, OErase p (hdz a))
+    else if code =? 6 then Some (t, OSetD p (hdz a))
     else None
   | _ => None
   end.
@@ -489,6 +509,18 @@ Definition node_line (who t : Z) (p : path) (link : option Z) (root : bool) (x :
 
 (* [cnt]: Some true = producer view of a statically indexed node (append the notification count),
    Some false = producer view below a dictionary (append -1), None = a consumer's view (nothing appended) *)
+(* TSDDataView::modified_keys: the slots whose modified bit was set in the current delta window, i.e. the
+   live elements that notified the dictionary at t (a write below them, or their own invalidation: invalidate
+   notifies the parent BEFORE it clears last_modified_time, so record_child_modified still sees a value) *)
+Definition mod_keys (t : Z) (s : tsd) : list Z :=
+  match s with
+  | Dict _ _ kids => if modified t s then map fst (filter (fun kc => nlast (tracking (snd kc)) =? t) kids) else []
+  | _ => []
+  end.
+(* is the delta handed back the dictionary's own per-tick delta (readable and not the sampled whole value) *)
+Definition typed_delta (t : Z) (link : option Z) (s : tsd) : bool :=
+  delta_readable t s && match link with Some lk => negb (lmt_of s <? lk) | None => true end.
+
 Fixpoint read_tree (fuel : nat) (who t : Z) (p : path) (link : option Z) (root : bool) (cnt : option bool) (s : tsd) : wire :=
   match fuel with
   | O => []
@@ -501,6 +533,9 @@ Fixpoint read_tree (fuel : nat) (who t : Z) (p : path) (link : option Z) (root :
       me :: concat (map (fun ic => read_tree f who t (p ++ [Z.of_nat (fst ic)]) link false cnt (snd ic)) (combine (seq 0 (length kids)) kids))
     | Dict _ _ kids =>
       me :: ([24; who; t; Z.of_nat (length p)] ++ p ++ map fst kids)
+         :: ([22; who; t; Z.of_nat (length p)] ++ p ++ mod_keys t s)
+         :: ([31; who; t; Z.of_nat (length p)] ++ p ++
+             (if typed_delta t link s then 1 :: mod_keys t s else [0]))
          :: concat (map (fun kc => read_tree f who t (p ++ [fst kc]) link false
                                              (match cnt with Some _ => Some false | None => None end) (snd kc)) kids)
     end
